@@ -11,6 +11,17 @@ open Lm.Struct
 /-- `m_queue_new(fn)` -/
 def new (dtor : Bool) : St := { obj := some { dtor := dtor } }
 
+/-- the chain after the pointer updates of `m_queue_enqueue` for the new node `nd`:
+`if (q->tail) q->tail->prev = elem;  q->tail = elem;  if (!q->head) q->head = q->tail;` -/
+def enqChain (q : Cont) (nd : Node) : Chain :=
+  let c1 := match q.tail with
+    | some t =>
+      match posOf t q.chain with
+      | some i => q.chain.take (i + 1) ++ [nd]   -- whatever followed the node `tail` names is cut off
+      | none => q.chain                          -- `tail` names a node that is not reachable from head
+    | none => q.chain
+  if c1.isEmpty then [nd] else c1
+
 /-- `m_queue_enqueue` -/
 def enqueue (s : St) (v : Val) : St × Ret :=
   match s.obj with
@@ -18,16 +29,7 @@ def enqueue (s : St) (v : Val) : St × Ret :=
   | some q =>
     if v = 0 then (s, .int EINVAL) else
     let nd : Node := ⟨q.fresh, v⟩
-    -- if (q->tail) q->tail->prev = elem;
-    let c1 := match q.tail with
-      | some t =>
-        match posOf t q.chain with
-        | some i => q.chain.take (i + 1) ++ [nd]   -- whatever followed the node `tail` names is cut off
-        | none => q.chain                          -- `tail` names a node that is not reachable from head
-      | none => q.chain
-    -- q->tail = elem; if (!q->head) q->head = q->tail;
-    let c2 := if c1.isEmpty then [nd] else c1
-    ({ s with obj := some { q with chain := c2, tail := some nd.id, len := q.len + 1, fresh := q.fresh + 1 } }, .int 0)
+    ({ s with obj := some { q with chain := enqChain q nd, tail := some nd.id, len := q.len + 1, fresh := q.fresh + 1 } }, .int 0)
 
 /-- `m_queue_dequeue` -/
 def dequeue (s : St) : St × Ret :=
@@ -103,6 +105,11 @@ only through it.  `free` is how an unfinished iterator is abandoned. -/
 def okOp (s : St) (o : Op) : Bool := !(o.mutates && s.itr.isSome)
 
 def run (s : St) (ops : List Op) : St := ops.foldl (fun s o => (step s o).1) s
+
+/-- the value returned by every call of a history -/
+def trace (s : St) : List Op → List Ret
+  | [] => []
+  | o :: os => (step s o).2 :: trace (step s o).1 os
 
 def okRun : St → List Op → Bool
   | _, [] => true
